@@ -142,6 +142,11 @@ def replay(chk, kind, cat, rkind, rcat_elems, rows0, hist, tmp, tag):
                     return nobs
         except Exception as ex:  # noqa: BLE001
             import traceback
+            if isinstance(ex, AssertionError) and "dask_expr/_repartition.py" in traceback.format_exc() and any(x["op"] == "pack_partitions" for x in hist[:step]):
+                # Dask's optimizer pushed a later row filter below pack_partitions' set_index; the filtered rows share one Hilbert
+                # distance and Dask cannot split them into the requested partitions (the case C09 excludes, surfacing lazily)
+                chk.notes["world_dask_cannot_split"] = chk.notes.get("world_dask_cannot_split", 0) + 1
+                return nobs
             bad(chk, desc, f"raises {type(ex).__name__}: {ex}\n" + traceback.format_exc()[-600:], op + "-raises", kind)
             return nobs
     return nobs
